@@ -3,7 +3,7 @@
     source with arbitrary short reads.  Only statements live here. *)
 From Coq Require Import List ZArith Bool.
 From V Require Import Gen.Params Lib.Hex Wire.Varint H3Stream.Model H3Stream.Proofs H3Stream.ProofsStream
-  H3Stream.ProofsExact H3Stream.ProofsBody H3Stream.ProofsTrunc H3Stream.ProofsSettings H3Stream.ProofsSched H3Stream.Conn H3Stream.ProofsConn H3Stream.ConnExamples.
+  H3Stream.ProofsExact H3Stream.ProofsBody H3Stream.ProofsTrunc H3Stream.ProofsSettings H3Stream.ProofsSched H3Stream.Conn H3Stream.ProofsConn H3Stream.ConnExamples H3Stream.E2E.
 Import ListNotations.
 Open Scope Z_scope.
 
@@ -69,6 +69,13 @@ Theorem C18_unknown_ignored_reserved_rejected :
 Proof. exact unknown_ignored_reserved_rejected. Qed.
 Print Assumptions C18_unknown_ignored_reserved_rejected.
 
+(** Scope of the Content-Length theorems below: the frame sequence [fs] consists of DATA and
+    ignorable frames and the stream ends with FIN.
+    (* OPEN: a body with Content-Length followed by a TRAILER HEADERS frame, and a body ended by a
+       stream reset, have no theorem: [wframe] has no HEADERS constructor.  They are covered by the
+       correspondence of unit h3stream (trailers, resets, all Content-Length modes) and, for the
+       clean-EOF direction, by C18_content_length_eof_only_when_complete, which holds for EVERY
+       stream.  Likewise C18_data_exact speaks about streams without trailers (x_trailers = []). *) *)
 (** A body longer than the declared Content-Length: the reads deliver a prefix of the payload,
     never more than declared; the only error is errTooMuchData, it comes after exactly the
     declared bytes with both directions reset (H3_MESSAGE_ERROR); and it does come. *)
@@ -256,6 +263,16 @@ Theorem C18_parse_next_chunking_independent :
 Proof. exact parse_next_chunking_independent. Qed.
 Print Assumptions C18_parse_next_chunking_independent.
 
+(** SETTINGS rules of parseSettingsFrame: a payload of (identifier, value) pairs is accepted iff no
+    identifier repeats and the boolean settings (ENABLE_CONNECT_PROTOCOL, H3_DATAGRAM) carry 0 or
+    1; a frame longer than 8 KiB is rejected before anything is read. *)
+Theorem C18_settings_rules :
+  (forall ps, Forall pair_ok ps ->
+     ((exists fr, settings_payload (enc_pairs ps) = inr fr) <-> (NoDup (map fst ps) /\ bools_valid ps))) /\
+  (forall (s : src) (l : Z), 8192 < l -> parse_settings s l = (inl ESettingsSize, s)).
+Proof. exact settings_rules. Qed.
+Print Assumptions C18_settings_rules.
+
 (** SETTINGS and GOAWAY through ParseNext, with their values: an accepted SETTINGS frame yields
     exactly MAX_FIELD_SECTION_SIZE (or -1), the two booleans, and the unknown settings in order;
     a GOAWAY frame yields the stream ID when its length is the length of the varint, else the
@@ -345,3 +362,117 @@ Example C18_example_conn :
   c_closed (fst (conn_run (new_conn false) ex_peer_goaway_3)) = Some 264.
 Proof. vm_compute. auto 10. Qed.
 Print Assumptions C18_example_conn.
+
+(** More of the "forbidden ones abort the stream or connection with the RFC 9114 error" table:
+    GOAWAY / SETTINGS on a request stream => "unexpected frame" + connection closed with
+    H3_FRAME_UNEXPECTED; DATA / a second HEADERS frame after the trailers => error, nothing more is
+    delivered, trailers reported once; on the control stream EVERY frame other than SETTINGS first
+    => H3_MISSING_SETTINGS, every frame other than GOAWAY after SETTINGS (a second SETTINGS, DATA,
+    HEADERS) => H3_FRAME_UNEXPECTED; GOAWAY: ignored by a server (push ID), at a client
+    H3_ID_ERROR for an ID that is not a client-initiated bidirectional stream ID or that is larger
+    than an earlier one, else a graceful H3_NO_ERROR close when no request is in flight.
+    (The control-stream statements are over what ParseNext delivers; which bytes deliver which frame is
+    C18_settings_goaway_values / C18_unknown_ignored_reserved_rejected / parse_next_data.) *)
+Theorem C18_forbidden_table :
+  (forall x blen th lh ie rest l id, x_rem x = 0 -> x_closed x = None -> benign (x_src x) -> venc th 7 -> venc lh l -> venc ie id -> zlen ie = l ->
+     s_data (x_src x) = th ++ lh ++ ie ++ rest ->
+     exists x', stream_read x blen = ([], Some EUnexpectedFrame, x') /\ x_closed x' = Some h3ErrCodeFrameUnexpected) /\
+  (forall x blen th lh pl rest fr, x_rem x = 0 -> x_closed x = None -> benign (x_src x) -> venc th 4 -> venc lh (zlen pl) -> zlen pl <= maxSettingsLen ->
+     settings_payload pl = inr fr -> s_data (x_src x) = th ++ lh ++ pl ++ rest ->
+     exists x', stream_read x blen = ([], Some EUnexpectedFrame, x') /\ x_closed x' = Some h3ErrCodeFrameUnexpected) /\
+  (forall x blen th lh rest l, x_rem x = 0 -> x_trailer x = true -> benign (x_src x) -> venc th 0 -> venc lh l ->
+     s_data (x_src x) = th ++ lh ++ rest ->
+     exists x', stream_read x blen = ([], Some EDataAfterTrailers, x') /\ x_trailers x' = x_trailers x /\ x_closed x' = x_closed x) /\
+  (forall x blen th lh rest l, x_rem x = 0 -> x_trailer x = true -> benign (x_src x) -> venc th 1 -> venc lh l ->
+     s_data (x_src x) = th ++ lh ++ rest ->
+     exists x', stream_read x blen = ([], Some EHeadersAfterTrailers, x') /\ x_trailers x' = x_trailers x /\ x_closed x' = x_closed x) /\
+  (forall c s s' fr, c_closed c = None -> parse_next (fuel_of s) s (c_closed c) = (inr fr, s', None) ->
+     (forall st, fr <> FSettings st) -> c_closed (control_stream c s) = Some h3ErrCodeMissingSettings) /\
+  (forall f c s s' fr, c_closed c = None -> parse_next (fuel_of s) s (c_closed c) = (inr fr, s', None) ->
+     (forall id, fr <> FGoaway id) -> c_closed (control_loop (S f) c s) = Some h3ErrCodeFrameUnexpected) /\
+  (forall f c s s' id, c_closed c = None -> parse_next (fuel_of s) s (c_closed c) = (inr (FGoaway id), s', None) ->
+     (c_server c = true -> control_loop (S f) c s = control_loop f (c_set_closed c None) s') /\
+     (c_server c = false -> id mod 4 <> 0 -> c_closed (control_loop (S f) c s) = Some h3ErrCodeIDError) /\
+     (c_server c = false -> id mod 4 = 0 -> forall m, c_goaway c = Some m -> m < id ->
+        c_closed (control_loop (S f) c s) = Some h3ErrCodeIDError) /\
+     (c_server c = false -> id mod 4 = 0 -> (c_goaway c = None \/ exists m, c_goaway c = Some m /\ id <= m) ->
+        c_closed (control_loop (S f) c s) = Some h3ErrCodeNoError /\ c_goaway (control_loop (S f) c s) = Some id)).
+Proof. exact forbidden_table. Qed.
+Print Assumptions C18_forbidden_table.
+
+(** Non-vacuity: SETTINGS (04 00) and GOAWAY (07 01 00) on a request stream; DATA after trailers
+    (HEADERS 01 02 aa bb, then DATA 00 01 07); the bytes of C18_example_conn instantiate the
+    control-stream hypotheses. *)
+Example C18_example_forbidden :
+  (let '(out, e, x') := stream_read (new_stream (mkSrc [4; 0; 0; 1; 9] [] EEOF false) 64) 10 in
+   out = [] /\ e = Some EUnexpectedFrame /\ x_closed x' = Some 261) /\
+  (let '(out, e, x') := stream_read (new_stream (mkSrc [7; 1; 0] [1; 1; 1] EEOF false) 64) 10 in
+   out = [] /\ e = Some EUnexpectedFrame /\ x_closed x' = Some 261) /\
+  (let '(out, e, x') := stream_reads (new_stream (mkSrc [0; 1; 5; 1; 2; 170; 187; 0; 1; 7] [] EEOF false) 64) [10; 10; 10] in
+   out = [5] /\ e = Some EDataAfterTrailers /\ x_trailers x' = [[170; 187]] /\ x_closed x' = None) /\
+  parse_next 9 (mkSrc [4; 0; 4; 0] [] EBlocked false) None = (inr (FSettings (mkSettings (-1) false false [])), mkSrc [4; 0] [] EBlocked false, None).
+Proof. vm_compute. auto 12. Qed.
+Print Assumptions C18_example_forbidden.
+
+(** The first frame of a request stream at the server (handleRequestStream up to the QPACK boundary;
+    model Conn.request_stream, replayed by unit h3conn): anything but HEADERS first => the
+    connection is closed with H3_FRAME_UNEXPECTED; a stream that ends before a frame =>
+    H3_REQUEST_INCOMPLETE on the stream only; a HEADERS frame larger than the header limit => the
+    431 path; a complete block within the limit is handed to the header decoder byte for byte. *)
+Theorem C18_request_stream_first_frame :
+  (* anything but HEADERS first: H3_FRAME_UNEXPECTED on the connection *)
+  (forall c data fin maxHdr fr s',
+     c_closed c = None ->
+     parse_next (fuel_of (usrc data fin)) (usrc data fin) None = (inr fr, s', None) ->
+     (forall l hl, fr <> FHeaders l hl) ->
+     c_closed (fst (request_stream c data fin maxHdr)) = Some h3ErrCodeFrameUnexpected) /\
+  (* the stream ends before a frame: H3_REQUEST_INCOMPLETE on the stream, connection untouched *)
+  (forall c maxHdr, c_closed c = None ->
+     request_stream c [] true maxHdr = (c_set_closed c None, RReset h3ErrCodeRequestIncomplete)) /\
+  (* a HEADERS frame larger than the limit: 431 *)
+  (forall c data fin maxHdr th lh l rest,
+     c_closed c = None -> venc th 1 -> venc lh l -> data = th ++ lh ++ rest -> maxHdr < l ->
+     snd (request_stream c data fin maxHdr) = RTooLarge /\ c_closed (fst (request_stream c data fin maxHdr)) = None) /\
+  (* a complete block within the limit is handed on, byte for byte *)
+  (forall c data fin maxHdr th lh blk rest,
+     c_closed c = None -> venc th 1 -> venc lh (zlen blk) -> data = th ++ lh ++ blk ++ rest -> zlen blk <= maxHdr ->
+     snd (request_stream c data fin maxHdr) = RAccepted blk /\ c_closed (fst (request_stream c data fin maxHdr)) = None).
+Proof. exact request_stream_rules. Qed.
+Print Assumptions C18_request_stream_first_frame.
+
+(** COMPOSITION with C19 (V.Props.C19 imported read-only): ONE request end to end over a reliable
+    ordered byte stream with arbitrary chunking (the QUIC stream contract of C01/C03 is the
+    hypothesis, as is the QPACK round trip): (1) the server's first-frame handling hands exactly the
+    client's header block to the decoder; (2) the *http.Request built from it agrees with what
+    the client application asked for -- method, authority, request URI, Content-Length
+    (C19_writer_parser_agree; header fields: C19_writer_parser_agree_headers); (3) the body the
+    handler reads is the body the client wrote, for every write chunking, short-read schedule and
+    buffer sequence.  NOT covered by any theorem (monitors h3e2e / h3sim only): the response
+    direction end to end, trailers end to end, concurrency of many requests on one connection,
+    loss / reordering below the stream contract, gzip, spec-driven clients, panic-freedom. *)
+Theorem C18_one_request_end_to_end :
+  forall (qenc : list HM.field -> list Z) (qdec : list Z -> list HM.field),
+  (forall fs, qdec (qenc fs) = fs) ->
+    forall q uri lim pre mid post (chunks : list (list Z)) (sched : list Z) (fw : bool) (maxHdr : Z) (bufs : list Z),
+    WM.emit_request3 q = Some (pre, mid, post) -> WA.wreq_pre q uri ->
+    HS.section_size (pre ++ mid ++ post) <= lim ->
+    let block := qenc (pre ++ mid ++ post) in
+    zlen block <= maxHdr -> zlen block <= maxVarInt8 -> Forall (fun b => zlen b <= maxVarInt8) chunks ->
+    let body_wire := concat (x_written (stream_writes (new_stream (mkSrc [] [] EEOF false) 0) chunks)) in
+    let request_wire := vappend 1 ++ vappend (zlen block) ++ block ++ body_wire in
+    (* 1. the server's first-frame handling hands exactly the client's header block to the decoder,
+          the connection stays open *)
+    (snd (request_stream (new_conn true) request_wire true maxHdr) = RAccepted block /\
+     c_closed (fst (request_stream (new_conn true) request_wire true maxHdr)) = None) /\
+    (* 2. the request the handler is given agrees with what the client application asked for (C19) *)
+    (exists r, HM.requestFromHeaders lim (qdec block) false uri = inr r /\
+       HM.rqMethod r = WM.eff_method q /\ HM.rqHost r = WM.wHost q /\
+       HM.rqURI r = (if WM.is_connect q then WM.wHost q else WA.the_path q) /\
+       HM.rqCL r = (if WM.send_cl (WM.wMethod q) (WM.wCL q) then WM.wCL q else -1)) /\
+    (* 3. the body the handler reads is the body the client wrote, for every chunking on both sides *)
+    (exists out e x' tl,
+       stream_reads (new_stream (mkSrc body_wire sched EEOF fw) maxHdr) bufs = (out, e, x') /\
+       concat chunks = out ++ tl /\ (e = None \/ (e = Some EEOF /\ tl = [])) /\
+       (all_pos bufs -> (length body_wire < length bufs)%nat -> e = Some EEOF)).
+Proof. exact one_request_end_to_end. Qed.
+Print Assumptions C18_one_request_end_to_end.
